@@ -158,7 +158,11 @@ func callMethod(c *tengo.Compiled, m string, v int64) {
 func C08_Methods() {
 	m1 := compiledMethods[vf.Choice("m1", len(compiledMethods))]
 	m2 := compiledMethods[vf.Choice("m2", len(compiledMethods))]
-	p := sharedProgs[vf.Choice("prog", 3)*3]
+	// a string-constant program, a function-local array, a source module, and
+	// two programs that update containers held by input variables in place
+	// (what Clone/Get/GetAll walk while a run may be writing)
+	methodProgs := []int{0, 3, 6, 8, 12}
+	p := sharedProgs[methodProgs[vf.Choice("prog", len(methodProgs))]]
 	a, b := vf.Int64("a"), vf.Int64("b")
 	c := c08Compile(p, a, b)
 	v1, v2 := vf.Int64("v1"), vf.Int64("v2")
